@@ -143,6 +143,7 @@ def run(chk):  # noqa: F811
     p2_get_next(chk)
     p3_tokenize_precondition(chk)
     p4_regex_ambiguity(chk)
+    p5_sections_progress(chk)
     bounded_compute_path(chk)
     bounded_parse(chk)
     chk.assumptions += [
@@ -326,3 +327,109 @@ def p4_regex_ambiguity(chk):
                                     "how_collected": "re._compile recorded in a fresh interpreter while importing mwlib.parser.* / nshandling / imgmap / uniq / tagext and parsing a document of all lexemes and tag names in en/de/fr with and without a wikidb"}
     if not pats:
         chk.crashes.append("regex recorder saw no pattern")
+
+
+# ----------------------------------------------------------------------------- P5: the section pass makes progress in every step
+def p5_sections_progress(chk):
+    """ParseSections.run calls _something until index reaches the end of the token list.  Progress contract of one step
+    ("every refinement pass is an index-walking loop that either advances or shrinks the token list"):
+        M = 2 * (len(tokens) - index) + (1 if a heading is open else 0)   strictly decreases, stays >= 0, index stays
+        within [0, len(tokens)].
+    `create` (builds the section token) is under an assumed contract read from its code: it returns False without effect
+    unless a heading start and end are recorded; otherwise it replaces tokens[start:index] by one section token
+    (and, when it nests that token into an enclosing section, removes it from the list and decrements start)."""
+    from pyvc import source
+    from pyvc.values import PObj, SInt, SStr, ClassRef, Model, z3_of
+    TT = {}
+    from mwlib.parser.refine import core as real
+    for k in dir(real.Token):
+        if k.startswith("t_") and isinstance(getattr(real.Token, k), int):
+            TT[k] = getattr(real.Token, k)
+    Z = z3.IntSort()
+    ex = Explorer()
+    mod = source.module(CORE)
+    fn = ex.function(CORE, "_something")
+    bcls = ClassRef(mod.defs["Bunch"], mod)
+    ex.inline.add(CORE + ":Bunch.__init__")
+    ex.global_overrides[(CORE, "Token")] = PObj("TokenClass", dict(TT))
+
+    def g(I):
+        return I.ghost
+    ex.len_hooks["toklist"] = lambda I, t: SInt(g(I)["n"])
+
+    def tok_getitem(I, tl, idx):
+        G = g(I)
+        k = I._int_term(idx)
+        if not I.decide(z3.And(k >= 0, k < G["n"])):
+            I.throw("IndexError", "list index out of range")
+        return PObj("tok", {"type": SInt(z3.Select(G["ty"], k))})
+    ex.getitem_hooks["toklist"] = tok_getitem
+
+    def create_contract(I, current, tokens, sections, index):
+        G = g(I)
+        st, et = current.fields.get("start"), current.fields.get("endtitle")
+        if st is None or et is None:
+            return False
+        s, i = I._int_term(st), I._int_term(index)
+        nested = I.fresh("nested_into_an_enclosing_section", z3.BoolSort())
+        G["n"] = G["n"] - (i - s) + 1 - z3.If(nested, 1, 0)
+        G["ty"] = I.fresh("ty_after_create", z3.ArraySort(Z, Z))
+        current.fields["start"] = SInt(z3.If(nested, s - 1, s))
+        return True
+    ex.contracts[CORE + ":create"] = create_contract
+
+    def harness(I):
+        G = g(I)
+        G["n"] = I.fresh("n", Z)
+        G["ty"] = I.fresh("ty", z3.ArraySort(Z, Z))
+        index = I.fresh("index", Z)
+        I.inputs.update({"n": G["n"], "index": index})
+        I.assume(z3.And(index >= 0, index < G["n"]))
+        # state of `current` as run() can reach it: no heading open, heading open, heading open with its end seen
+        k = I.choose(3, "current")
+        start = None if k == 0 else SInt(I.fresh("start", Z))
+        endtitle = None if k < 2 else SInt(I.fresh("endtitle", Z))
+        if start is not None:
+            I.assume(z3.And(start.z >= 0, start.z < index))
+        if endtitle is not None:
+            I.assume(z3.And(endtitle.z > start.z, endtitle.z < index))
+        cur = PObj(bcls, {"start": start, "end": None, "endtitle": endtitle})
+        n0 = G["n"]
+        m0 = 2 * (n0 - index) + (1 if start is not None else 0)
+        out = ex.run_function(I, fn, [PObj("toklist", {}), [], SInt(index), cur])
+        I.oblige("no_raise", out.returned)
+        if not out.returned:
+            return
+        idx2, cur2 = out.value
+        i2 = I._int_term(idx2)
+        open2 = cur2.fields.get("start") is not None
+        m1 = 2 * (G["n"] - i2) + (1 if open2 else 0)
+        I.oblige("index_stays_inside_the_token_list", z3.And(i2 >= 0, i2 <= G["n"]))
+        I.oblige("progress_measure_decreases", m1 < m0)
+        I.oblige("progress_measure_bounded_below", m1 >= 0)
+    chk.prove("core._something[progress]", harness, ex, targets=[fn], replay=replay_sections)
+
+
+def replay_sections(model, obligation):
+    """real parse of headings split across token lists, under a watchdog"""
+    import signal
+    from contracts import docs
+
+    class _T(BaseException):
+        pass
+
+    def h(*a):
+        raise _T()
+    for s in ("== a <table> b ==\n", "{|\n|-\n== a || b ==\n|}", "== a ==\ntext\n=== b ===\nmore\n== c\n", "x ==\n== y ==\n"):
+        old = signal.signal(signal.SIGALRM, h)
+        signal.setitimer(signal.ITIMER_REAL, 5.0, 1.0)
+        try:
+            docs.parse(s)
+        except _T:
+            return True, {"wikitext": s, "problem": "parse_string did not return within 5 s (ParseSections does not advance)"}, "sections-hang"
+        except Exception as e:  # noqa: BLE001
+            return True, {"wikitext": s, "problem": f"raised {type(e).__name__}"}, "sections-raise"
+        finally:
+            signal.setitimer(signal.ITIMER_REAL, 0)
+            signal.signal(signal.SIGALRM, old)
+    return False, {"cases": 4}, None
